@@ -144,7 +144,7 @@ var runVerbs = [...]int{drive.KAbsLineTo, drive.KRelLineTo, drive.KAbsSmoothQuad
 	drive.KAbsSmoothCubeTo, drive.KRelSmoothCubeTo, drive.KAbsCubeTo, drive.KRelCubeTo, drive.KAbsArcTo, drive.KRelArcTo,
 	drive.KAbsHLineTo, drive.KRelHLineTo, drive.KAbsVLineTo, drive.KRelVLineTo, drive.KClosePathAbsMoveTo, drive.KClosePathRelMoveTo}
 
-var runLens = [...]int{1, 2, 15, 16, 17, 31, 32, 33, 40}
+var runLens = [...]int{1, 2, 15, 16, 17, 31, 32, 33, 40, 255, 256, 257, 300}
 
 func concreteArgs(k, i int) drive.Args {
 	var a drive.Args
